@@ -40,7 +40,7 @@ func genC04(t *rapid.T) C04Case {
 	c := C04Case{Spec: spec}
 	lv := a.Cur()
 	// dangerous context right before the terminator
-	ctxs := []string{"any", "optional-novalue", "greedy-capacity", "command", "positional", "satisfied"}
+	ctxs := []string{"any", "optional-novalue", "greedy-capacity", "command", "positional", "satisfied", "mandatory-takes-terminator"}
 	c.Ctx = rapid.SampledFrom(ctxs).Draw(t, "ctx")
 	pickKind := func(pred func(k Kind) bool) (string, *OptSpec) {
 		var keys []string
@@ -93,6 +93,13 @@ func genC04(t *rapid.T) C04Case {
 		}
 	case "positional":
 		a.Push("positional", sampled(t, "ctxword", []string{"foo", "bar", "1", "k=v", ""}))
+	case "mandatory-takes-terminator":
+		// the statement's exception: a `--` standing where a mandatory value is missing IS that value; the next `--` terminates
+		if k, _ := pickKind(func(k Kind) bool { return k == KString || k == KStringSlice }); k != "" && len(lv.Visible[k].Spec.Valid) == 0 {
+			a.Push("ctx:mandatory-term", "--"+k, "--")
+		} else {
+			c.Ctx = "any"
+		}
 	case "satisfied":
 		if k, o := pickKind(func(k Kind) bool { return k.IsMandatoryScalar() }); k != "" {
 			v := genValue(t, o.Kind.Elem(), false, "sv")
